@@ -374,7 +374,7 @@ def normStepSpec (n : Normalization) (pos : Position) (cs : List Char) : Option 
   | .collapse c => some (collapseChars c false cs)
   | .replace (.char c) rep => some (replaceAll [c] (Utf8.chars rep) cs)
   | .replace (.string s) rep => some (replaceAll (Utf8.chars s) (Utf8.chars rep) cs)
-  | .nmt => some (Spec.nmtSpec cs)
+  | .nmt => some (Spec.nmtSpecListed cs)
   | .conditional cond inner =>
     if (match cond with | .startOfText => pos.start == 0 | .endOfText => pos.toEnd)
     then normStepSpec inner pos cs else some cs
